@@ -37,7 +37,7 @@ def one(pf):
 
 
 bad = 0
-with cf.ThreadPoolExecutor(8) as ex:
+with cf.ThreadPoolExecutor(14) as ex:
     for pf, alarms, out in ex.map(one, pats):
         name = os.path.basename(pf)
         if alarms is None:
